@@ -106,6 +106,20 @@ Proof.
   unfold tok_char in H. now apply andb_true_iff in H as [_ H].
 Qed.
 
+Lemma tok_char_bare_text tok : forallb tok_char tok = true -> bare_text tok = true.
+Proof.
+  intros H. unfold bare_text.
+  rewrite (tok_char_lacks_hash tok H), (tok_char_qfree tok H), (py_strip_no_space tok (tok_char_no_space tok H)).
+  now rewrite str_eqb_refl.
+Qed.
+
+Lemma bare_text_facts tok :
+  bare_text tok = true -> lacks 35 tok = true /\ qfree tok = true /\ py_strip tok = tok.
+Proof.
+  unfold bare_text. intros H. apply andb_true_iff in H as [H H3]. apply andb_true_iff in H as [H1 H2].
+  repeat split; try assumption. now apply str_eqb_eq.
+Qed.
+
 (** ------------------------------------------------------------------ strip_comment *)
 
 Lemma strip_comment_no_hash line d : lacks 35 line = true -> strip_comment line d = Ok line.
@@ -210,16 +224,17 @@ Section Line.
 
   (** --- bare tokens *)
   Lemma parse_body_bare tok ws3 :
-    forallb tok_char tok = true -> all_space ws3 = true ->
+    bare_text tok = true -> all_space ws3 = true ->
     parse_body (pre ++ tok ++ ws3) d = bind (parse_bare tok) (fun v => Ok (Some (key, v))).
   Proof.
-    intros Ht Hw3. rewrite parse_body_pre. cbv zeta.
-    rewrite (py_strip_pad ws2 tok ws3 Hw2 Hw3), (py_strip_no_space tok (tok_char_no_space tok Ht)).
+    intros Ht Hw3. destruct (bare_text_facts tok Ht) as [_ [Hq Hst]].
+    rewrite parse_body_pre. cbv zeta.
+    rewrite (py_strip_pad ws2 tok ws3 Hw2 Hw3), Hst.
     assert (Hp : prefixb d tok = false).
     { destruct tok as [|c r].
       - destruct (isq_cons d Hd) as [d' [-> _]]. reflexivity.
-      - apply (prefixb_q_nonq d c r Hd). cbn [forallb] in Ht. apply andb_true_iff in Ht as [Ht _].
-        unfold tok_char in Ht. apply andb_true_iff in Ht as [_ Ht]. now apply negb_true_iff in Ht. }
+      - apply (prefixb_q_nonq d c r Hd). unfold qfree in Hq. rewrite lacks_cons in Hq.
+        apply andb_true_iff in Hq as [Hq _]. now apply negb_true_iff in Hq. }
     now rewrite Hp.
   Qed.
 
@@ -355,22 +370,20 @@ Section Line.
 
   (** bare token, with or without a trailing comment *)
   Theorem parse_line_bare tok ws3 comment :
-    forallb tok_char tok = true -> all_space ws3 = true ->
+    bare_text tok = true -> all_space ws3 = true ->
     parse_line (pre ++ tok ++ trailer ws3 comment) d
     = bind (parse_bare tok) (fun v => Ok (Some (key, v))).
   Proof.
-    intros Ht Hw3. unfold parse_line, trailer.
+    intros Ht Hw3. destruct (bare_text_facts tok Ht) as [Hh [Hq _]]. unfold parse_line, trailer.
     assert (HA : lacks 35 (pre ++ tok ++ ws3) = true).
-    { now rewrite !lacks_app, pre_lacks_hash, (tok_char_lacks_hash tok Ht),
-                  (all_space_lacks 35 ws3 space_hash Hw3). }
+    { now rewrite !lacks_app, pre_lacks_hash, Hh, (all_space_lacks 35 ws3 space_hash Hw3). }
     destruct comment as [c|].
-    - replace (pre ++ tok ++ ws3 ++ 35%N :: c) with ((pre ++ tok ++ ws3) ++ 35%N :: c)
-        by reassoc.
+    - replace (pre ++ tok ++ ws3 ++ 35%N :: c) with ((pre ++ tok ++ ws3) ++ 35%N :: c) by reassoc.
       rewrite (strip_comment_hash _ c d HA).
       rewrite (count_pre_clean (tok ++ ws3)).
       + cbn [Nat.eqb bind]. now apply parse_body_bare.
-      + unfold qfree. rewrite lacks_app. fold (qfree tok).
-        now rewrite (tok_char_qfree tok Ht), (all_space_lacks QUOTE ws3 space_quote Hw3).
+      + unfold qfree in *. rewrite lacks_app.
+        now rewrite Hq, (all_space_lacks QUOTE ws3 space_quote Hw3).
     - rewrite app_nil_r, (strip_comment_no_hash _ d HA). cbn [bind]. now apply parse_body_bare.
   Qed.
 
